@@ -103,7 +103,7 @@ func registerJSON(e *Engine) {
 			if err != nil || i >= len(toks) {
 				return p.errVal("invalid JSON token")
 			}
-			p.storeTo(target, p.deepCopy(toks[i]))
+			p.jsonAssign(target, p.deepCopy(toks[i]))
 			return NilIface
 		}
 		cur := target.load()
@@ -150,5 +150,35 @@ func sortStrings(s []string) {
 		for j := i; j > 0 && s[j] < s[j-1]; j-- {
 			s[j], s[j-1] = s[j-1], s[j]
 		}
+	}
+}
+
+
+// jsonAssign stores a decoded value the way encoding/json does: struct fields are overwritten one by
+// one, but a non-nil map already present in the target is reused and merged into (existing keys that the
+// JSON object does not mention survive); a JSON null resets the map to nil.
+func (p *Path) jsonAssign(target *Pointer, v Value) {
+	cur := target.load()
+	switch nv := v.(type) {
+	case *StructVal:
+		cs, ok := cur.(*StructVal)
+		if !ok || len(cs.F) != len(nv.F) {
+			p.storeTo(target, nv)
+			return
+		}
+		for i := range nv.F {
+			p.jsonAssign(target.Sub(i), nv.F[i])
+		}
+	case *MapVal:
+		cm, ok := cur.(*MapVal)
+		if !ok || nv == nil || nv.Nil || cm == nil || cm.Nil {
+			target.store(nv)
+			return
+		}
+		for _, e := range nv.Entries {
+			p.mapStore(cm, e.K, e.V)
+		}
+	default:
+		target.store(v)
 	}
 }
